@@ -222,8 +222,8 @@ theorem overflow_bound_needed_witness :
 /-- With `MaxTTL` configured within the bound no requested ttl can overflow. -/
 theorem no_overflow_of_maxTTL (maxTTL ttl : Int) (h0 : 0 < maxTTL) (hm : maxTTL ≤ 9223372036) :
     NoOverflow maxTTL ttl := by
-  unfold NoOverflow effTTL second
-  split <;> omega
+  unfold NoOverflow effTTL
+  split <;> src_omega
 
 /-! ## concurrent (every interleaving, any number of callers and cleaners)
 
@@ -445,5 +445,40 @@ def hit_is_fresh_trace_statement : Prop :=
         | .delete k => some (Op.delete k)
         | .advance d => some (Op.advance d)
         | _ => none)).reverse) 0 = some (v, ttl, el) ∧ (el : Int) < effTTL maxTTL ttl * second
+
+/-! ## T1: the source's shape, regenerated from ttlcache.go on every run (`KitModel/Generated/C15.lean`)
+
+The model is written over the generated comparison operators and constants (`getOf`, `expiredAt`,
+`badTTL`, `effTTL`, `second`, `effPeriod` mention `Src.*` only), so every theorem above is re-checked
+against what the source says now. This theorem pins down the readings the statements rely on and
+the structural facts the LTS encodes by construction. -/
+
+/-- **source_shape_as_modelled.**
+* `Get` hits iff `now < exp` (strict); `Cleanup` collects iff `exp < now` (strict): hence the
+  boundary `exp == now` is missed by Get and kept by Cleanup;
+* `Set` panics iff `ttl ≤ 0`, caps iff `0 < MaxTTL < ttl`, multiplies by 10⁹ ns (`time.Second`);
+* `Cleanup` = read clock, ForEach collecting by the criterion, hook, bulk `Del`; `Reset` = ForEach
+  collecting every key, hook, bulk `Del` (the cleaner phases `cNow`, `cVisit`*, `cSeal`, `cDelOne`*);
+* `Stop` = `if CAS { close(stopCh) }` then an UNCONDITIONAL `<-runningCh`: every caller waits
+  (the guard of `stopReturn` for every caller id);
+* the periodic goroutine defers `close(runningCh)` first and `ticker.Stop()` second (so the ticker
+  is stopped before `runningCh` closes: `bgExit` sets both) and selects on stopCh/return and tick/Cleanup;
+* `NewCache` replaces an interval `≤ 0` by 150 s; the two hook sites are where `cSeal` sits. -/
+theorem source_shape_as_modelled :
+    (∀ exp now : Int, Src.getHitCmp.rel exp now ↔ now < exp) ∧
+    (∀ exp now : Int, Src.cleanupCmp.rel exp now ↔ exp < now) ∧
+    (∀ ttl : Int, badTTL ttl ↔ ttl ≤ 0) ∧
+    (∀ m t : Int, effTTL m t = if 0 < m ∧ m < t then m else t) ∧
+    second = 1000000000 ∧
+    (∀ p : Int, effPeriod p = if p ≤ 0 then 150000000000 else p) ∧
+    Src.cleanupSteps = ["readClock", "forEachCollectIf", "hook", "bulkDel"] ∧
+    Src.resetSteps = ["forEachCollectAll", "hook", "bulkDel"] ∧
+    Src.stopSteps = ["ifCAS:closeStopCh", "waitRunningCh"] ∧
+    Src.stopEveryCallerWaits = true ∧
+    Src.bgDefers = ["closeRunningCh", "tickerStop"] ∧
+    Src.bgSelect = ["stopCh:return", "tick:Cleanup"] ∧
+    Src.hookSites = [("Cleanup", "ttlcache.cleanup.afterSnapshot"), ("Reset", "ttlcache.reset.afterSnapshot")] := by
+  refine ⟨fun _ _ => Iff.rfl, fun _ _ => Iff.rfl, fun _ => Iff.rfl, fun _ _ => rfl, rfl, fun _ => rfl,
+    by decide, by decide, by decide, rfl, by decide, by decide, by decide⟩
 
 end Kit.TTLCache
